@@ -87,6 +87,37 @@ META["C19"] = {
     "technique": "static analysis: symbolic execution over MIR facts with finite variant-set constraints (no solver), ADT-table boundedness criterion",
 }
 
+META["C06"] = {
+    "level": "Translation validation of the x86-64 instruction-selection templates, statically: emission functions are abstractly "
+             "interpreted (MIR facts) into instruction lists for every reachable placement class, and each list is checked on a "
+             "symbolic machine against the AxCut step it implements. Golden tests pin text for 8 programs with everything in "
+             "registers; spill arms, rdx/rax special cases and large literals are covered here.",
+    "design_ref": "DESIGN.md §4 C06-C08 (R-ENUM backend segment, R-SPILL realised as symbolic template validation), §3 R-IMM",
+    "note": "Narrow: arithmetic, comparison, move and literal templates plus dispatch tables. Heap operations, closures, jump tables "
+            "and whole-program behaviour of generated code are not decided.",
+    "technique": "static analysis: abstract interpretation of MIR emission functions + symbolic execution of the emitted instruction templates (syntactic equality, no solver)",
+}
+META["C07"] = {
+    "level": "Translation validation of the AArch64 instruction-selection templates, statically: emission functions are abstractly "
+             "interpreted (MIR facts) into instruction lists for every reachable placement class, and each list is checked on a "
+             "symbolic machine against the AxCut step it implements. Golden tests pin text for 8 programs with everything in "
+             "registers; spill arms, rdx/rax special cases and large literals are covered here.",
+    "design_ref": "DESIGN.md §4 C06-C08 (R-ENUM backend segment, R-SPILL realised as symbolic template validation), §3 R-IMM",
+    "note": "Narrow: arithmetic, comparison, move and literal templates plus dispatch tables. Heap operations, closures, jump tables "
+            "and whole-program behaviour of generated code are not decided.",
+    "technique": "static analysis: abstract interpretation of MIR emission functions + symbolic execution of the emitted instruction templates (syntactic equality, no solver)",
+}
+META["C08"] = {
+    "level": "Translation validation of the RISC-V instruction-selection templates, statically: emission functions are abstractly "
+             "interpreted (MIR facts) into instruction lists for every reachable placement class, and each list is checked on a "
+             "symbolic machine against the AxCut step it implements. Golden tests pin text for 8 programs with everything in "
+             "registers; spill arms, rdx/rax special cases and large literals are covered here.",
+    "design_ref": "DESIGN.md §4 C06-C08 (R-ENUM backend segment, R-SPILL realised as symbolic template validation), §3 R-IMM",
+    "note": "Narrow: arithmetic, comparison, move and literal templates plus dispatch tables. Heap operations, closures, jump tables "
+            "and whole-program behaviour of generated code are not decided. The RISC-V backend cannot print (see C18/C12 known finding).",
+    "technique": "static analysis: abstract interpretation of MIR emission functions + symbolic execution of the emitted instruction templates (syntactic equality, no solver)",
+}
+
 NOT_APPLICABLE = {
     "C09": "Run-time heap invariant of *generated* code at every statement boundary of every execution; no path property of the "
            "compiler's source corresponds to it and no sound static argument in reach bounds it (DESIGN.md §4 C09/C10).",
@@ -95,5 +126,5 @@ NOT_APPLICABLE = {
 }
 # properties whose checks are not built yet are listed here until their rules exist (kept current by bin/gen-manifest)
 PENDING = "check not built yet in this round; planned rules are in DESIGN.md §4"
-for _p in ["C06", "C07", "C08", "C11", "C13", "C14", "C15", "C16", "C20"]:
+for _p in ["C11", "C13", "C14", "C15", "C16", "C20"]:
     NOT_APPLICABLE.setdefault(_p, PENDING)
